@@ -107,6 +107,8 @@ class Interp:
         self.on_call = None           # optional observer(callee_name, body, args) / used for token logs
         self.on_return = None
         self.watch = {}               # body name -> callback(args, result)
+        self.sched = None             # thread scheduler (C13) or None
+        self.profile = 'dev'          # 'dev' (overflow-checks on) | 'release'
         self._index()
 
     # ------------------------------------------------------------------ indexing crate definitions
@@ -117,7 +119,7 @@ class Interp:
         for name, b in self.mir.bodies.items():
             if b.kind != 'fn':
                 continue
-            m = re.match(r'(?:(.*)::)?<impl at ([^:>]+):(\d+):(\d+): \d+:\d+>::(.*)$', name)
+            m = re.match(r'(?:(.*)::)?<impl at ([^:>]+):(\d+):(\d+): \d+:\d+>::(.*?)(?:#\d+)?$', name)
             if m:
                 rest = m.group(5)
                 info = self.src.impl_at(m.group(2), int(m.group(3)), int(m.group(4)))
@@ -767,6 +769,8 @@ class Interp:
                         continue
                     raise Unsupported('terminator ' + k)
                 except Unwind as u:
+                    if k == 'resume':
+                        raise
                     unw = term[-1]
                     if bb in cleanup_blocks:
                         raise Abort('panic during cleanup in %s: %s' % (body.name, u.msg))
